@@ -56,3 +56,12 @@ pub fn install() {
 pub fn take() -> BTreeMap<&'static str, u64> {
     COUNTS.with(|c| std::mem::take(&mut *c.borrow_mut()))
 }
+
+/// Number of "the backend's answer had to be discarded" messages logged on this thread so far
+/// (witness repair failed, solver error): lets a step find out whether it was affected.
+pub fn discarded_answers() -> u64 {
+    COUNTS.with(|c| {
+        let c = c.borrow();
+        ["witness_repair_failed", "solver_error_in_elimination", "solver_error_in_edge_test"].iter().map(|k| c.get(k).copied().unwrap_or(0)).sum()
+    })
+}
